@@ -219,6 +219,11 @@ def reconfirm(ev, detail):
     h = ev["hints"][i]
     hyp = ev["ctx"] + (ev["R"] if ev["op"] == "refine" else ev["S"])
     t = (ev["S"] if ev["op"] == "refine" else ev["R"])[i]
+    if h["kind"] == "witness2":
+        from fractions import Fraction as F
+
+        q = {v: F(x) * h["d"] + h["w"].get(v, 0) for v, x in h["q"].items()}
+        return H.confirm_witness_exact(ev["_hyp_exact"], ev["_tg_exact"][i], {v: int(x) for v, x in q.items()}, h["d"], ev["_hyp_dev"], ev["_tg_dev"][i])
     if h["kind"] == "witness":
         q, d = h["q"], h["d"]
     else:
